@@ -141,8 +141,8 @@ class IsotpDiscoverer(UDSDiscoveryScanner):
             await transport.sendto(pdu, timeout=0.1, dst=dst_addr)
             try:
                 addr, payload = await transport.recvfrom(timeout=self.config.timeout)
-                if addr == ID:
-                    logger.info(f"The same CAN ID {can_id_repr(ID)} answered. Skipping…")
+                if addr == dst_addr:
+                    logger.info(f"The same CAN ID {can_id_repr(dst_addr)} answered. Skipping…")
                     continue
             except TimeoutError:
                 continue
